@@ -54,6 +54,29 @@ Theorem C05_no_loss_no_dup : forall n1 n2 s, (n1 <= n2)%Z ->
 Proof. exact reload_no_loss_no_dup. Qed.
 Print Assumptions C05_no_loss_no_dup.
 
+(* the round trip as ONE equation over the whole state: load (save s) = s - every persisted field of every change, task
+   (status, waited status, clean, progress, data, wait/halt edges, lanes, log, change link, spawn/ready/doing/undoing/at times),
+   warning and notice, the state data and the four counters and the last-notice time stamp - for every state that is canonical
+   for the load clock: no data value that is the JSON literal null (the recorded finding, carved out exactly by this
+   hypothesis), no task whose waited status is still Default (the documented default-to-Done on load), no expired warning or
+   notice (dropped by design). The runtime-only fields are not part of [state] (C05_codec_fields_complete accounts for them). *)
+Theorem C05_roundtrip_exact : forall n1 n2 s, (n1 <= n2)%Z -> canonical n2 s -> reload n2 (persist n1 s) = s.
+Proof. exact roundtrip_exact. Qed.
+Print Assumptions C05_roundtrip_exact.
+
+(* every state that comes out of a load is canonical, whatever was saved ... *)
+Theorem C05_reload_canonical : forall n1 n2 s, (n1 <= n2)%Z -> canonical n2 (reload n2 (persist n1 s)).
+Proof. exact reload_canonical. Qed.
+Print Assumptions C05_reload_canonical.
+
+(* ... so from the first reload on save/load is the identity (as long as nothing expires in between) *)
+Theorem C05_reload_fixed_point : forall n1 n2 n3 n4 s, (n1 <= n2)%Z -> (n2 <= n3)%Z -> (n3 <= n4)%Z ->
+  Forall (fun w => warning_expired n4 w = false) (s_warnings (reload n2 (persist n1 s))) ->
+  Forall (fun n => notice_expired n4 n = false) (s_notices (reload n2 (persist n1 s))) ->
+  reload n4 (persist n3 (reload n2 (persist n1 s))) = reload n2 (persist n1 s).
+Proof. exact reload_fixed_point. Qed.
+Print Assumptions C05_reload_fixed_point.
+
 (* the notices are a map keyed by (user id present and value, type, key) - noticeKey in Go. A reload preserves the MAP KEYS:
    the reloaded notices carry exactly the keys of the unexpired saved ones, pairwise distinct if they were; and over every op
    sequence with reloads and prunes anywhere no two notices of the state ever share a key - so an occurrence of
@@ -131,3 +154,13 @@ Example C05_notice_keys_example :
   let '(s', iss, _) := run empty_state ops in
   map n_id (s_notices s') = [1; 2; 3] /\ map n_occ (s_notices s') = [2; 1; 1] /\ ids_of_kind 3 iss = [1; 2; 3].
 Proof. vm_compute. repeat split; reflexivity. Qed.
+
+(* non-vacuity of [canonical]: a state with a change, a task in Wait with waited status Done, data, a warning and a notice *)
+Example C05_canonical_satisfiable :
+  let s := mkState [(bs "k", bs "1")]
+             [mkChange 1 (bs "c") (bs "s") 0 false [(bs "a", bs "true")] [1] (Some 5%Z) None 2]
+             [mkTask 1 (bs "t") (bs "s") 10 4 false None [] [] [] [3%Z] [bs "INFO x"] 1 (Some 5%Z) None 0%Z 0%Z (Some 9%Z)]
+             [mkWarning (bs "w") 1%Z 2%Z None default_warning_expire 0%Z]
+             [mkNotice 1 (Some 0) (nt 1) (bs "1") 1%Z 2%Z 2%Z 1 [] 0%Z default_notice_expire] 1 1 3 1 (Some 2%Z) in
+  reload 10 (persist 10 s) = s.
+Proof. vm_compute. reflexivity. Qed.
